@@ -336,6 +336,17 @@ def _progress(c, fn, step_callee):
                     and any(isinstance(t, ast.Name) and t.id in test_names for t in s.targets) for s in w.body)
     if not (direct or refreshed):
         problems.append("the loop condition's clock variable is not refreshed from time() inside the loop")
+    # the budget is used up when the clock reaches the deadline: the continuation test is a strict inequality (with an empty
+    # budget, or a clock reading exactly on the deadline, no further batch of steps is taken)
+    t_ = w.test
+    neg = False
+    while isinstance(t_, ast.UnaryOp) and isinstance(t_.op, ast.Not):
+        t_, neg = t_.operand, not neg
+    strict = isinstance(t_, ast.Compare) and len(t_.ops) == 1 and (
+        (not neg and isinstance(t_.ops[0], (ast.Lt, ast.Gt))) or (neg and isinstance(t_.ops[0], (ast.LtE, ast.GtE))))
+    if not strict:
+        problems.append(f"the continuation test `{U(w.test)}` still holds when the clock reads exactly the deadline: a run whose budget is "
+                        f"used up (or empty) takes another full batch of steps")
     return struct_ob("run_for.progress", qual(c, fn), not problems, "; ".join(problems), rel, w.lineno,
                      detail="lower-bound" if any("lower bound" in p for p in problems) else "",
                      slots={"loop_test": U(w.test)})
